@@ -1,11 +1,14 @@
 (* C04 — INSERT expansion is rectangular and row-faithful.
    Property theorems only; proofs are in Proofs/. *)
+From Coq Require Import Permutation.
 From SQLair.Base Require Import Bytes.
-From SQLair.Model Require Import GenConsts Reflect TypeInfo Bind.
-From SQLair.Proofs Require Import BindFacts.
+From SQLair.Model Require Import GenConsts Reflect TypeInfo Parser Bind.
+From SQLair.Proofs Require Import BindFacts InsertProofs BindInputsProofs SortFacts
+  StructFieldsProofs BindTypesFacts ExampleData.
 
-(* Every generated tuple has exactly as many values as there are columns in the
-   column list (the non-omitted columns), and there is one tuple per row. *)
+(* (a) Every generated tuple has exactly as many values as there are columns
+   in the column list (the non-omitted columns), and there is one tuple per
+   row. *)
 Theorem C04_rectangular :
   forall bcs rows named rowsSQL named',
     insert_rows bcs rows [] named = BOk (rowsSQL, named') ->
@@ -24,3 +27,204 @@ Example C04_rectangular_applies :
         bc_argtype := None; bc_literal := [49]%N; bc_column := [98]%N |}] [0; 1] [] [] = BOk (r, n)
     /\ length r = 2.
 Proof. eexists. eexists. split; [vm_compute; reflexivity|reflexivity]. Qed.
+
+(* (b) The tuples as a function of (row, column): the cell of column bc in row
+   r is its literal, its single placeholder (the same in every row), or the
+   placeholder bc_first + r of its r-th bulk value; over the non-omitted
+   columns only.  The named arguments are created row by row; a single value
+   is named once, in row 0.  (Holds for every successful insert_rows; the
+   shape hypothesis is only needed for success, see C04_cells_total.) *)
+Theorem C04_cells :
+  forall bcs n named rowsSQL named',
+    insert_rows bcs (seq 0 n) [] named = BOk (rowsSQL, named') ->
+    rowsSQL = map (fun r => map (fun bc => cell bc r) (live bcs)) (seq 0 n) /\
+    named' = named ++ flat_map (fun r => flat_map (fun bc => cell_arg bc r) (live bcs)) (seq 0 n).
+Proof. intros bcs n named rowsSQL named'. exact (insert_rows_spec bcs (seq 0 n) [] named rowsSQL named'). Qed.
+Print Assumptions C04_cells.
+
+Theorem C04_cells_total :
+  forall bcs n named,
+    (forall bc, In bc (live bcs) -> well_shaped n bc) ->
+    exists res, insert_rows bcs (seq 0 n) [] named = BOk res.
+Proof. intros bcs n named W. exact (insert_rows_total n bcs (seq 0 n) [] named W (seq_lt_all 0 n)). Qed.
+Print Assumptions C04_cells_total.
+
+(* the arguments of one well shaped column, over all rows: its values, each
+   exactly once, under the consecutive names starting at bc_first *)
+Theorem C04_column_arguments :
+  forall n bc,
+    well_shaped n bc -> 1 <= n ->
+    flat_map (fun r => cell_arg bc r) (seq 0 n) =
+    map (fun '(i, v) => (arg_name i, v))
+        (combine (seq (bc_first bc) (length (bc_vals bc))) (bc_vals bc)).
+Proof. exact col_args. Qed.
+Print Assumptions C04_column_arguments.
+
+(* what the column loop guarantees: every column is bound from its typed
+   column with the count threaded through, the placeholder ranges of the
+   non-omitted columns are consecutive, every column is well shaped for the
+   number of rows, every bulk column has exactly numRows values, and numRows
+   is the length of the bulk slices, or 1 when no column is bulk *)
+Theorem C04_shape :
+  forall env m cols cnt used bcs cnt' used' numRows,
+    bind_cols env m cnt used cols false 1 [] = BOk (bcs, cnt', used', numRows) ->
+    bound_all env m cnt cols bcs /\ laid cnt bcs /\ cnt' = cnt + sumw bcs /\
+    map bc_column bcs = map tcol_column cols /\
+    Forall (well_shaped numRows) bcs /\ 1 <= numRows /\
+    (forall bc, In bc bcs -> bc_bulk bc = true -> length (bc_vals bc) = numRows) /\
+    ((exists bc, In bc bcs /\ bc_bulk bc = true) \/ numRows = 1).
+Proof. exact bind_cols_top. Qed.
+Print Assumptions C04_shape.
+
+(* (c) The values of a bulk struct field: the field of every element of the
+   slice, in element order.  With omitempty the column is omitted iff all of
+   them are zero; a mix of zero and non-zero is an error; so is an empty
+   slice. *)
+Theorem C04_values :
+  forall env f m st ss,
+    t2v_get m (sf_struct f) = None -> locate_bulk env m (sf_struct f) = Some (st, ss) ->
+    match slice_elems ss with
+    | [] => locate_params env (LField f) m = BErr ESliceLen0
+    | e :: elems =>
+        forall v vs, map (elem_field f) (e :: elems) = map Some (v :: vs) ->
+          locate_params env (LField f) m =
+            if sf_omit f && negb (forallb (fun x => Bool.eqb (is_zero x) (is_zero v)) vs)
+            then BErr EMixZero
+            else BOk {| p_vals := v :: vs; p_omit := sf_omit f && is_zero v; p_bulk := true;
+                        p_argtype := st |}
+    end.
+Proof. exact locate_field_bulk. Qed.
+Print Assumptions C04_values.
+
+Theorem C04_values_ok :
+  forall env f m p,
+    t2v_get m (sf_struct f) = None -> locate_params env (LField f) m = BOk p ->
+    exists st ss, locate_bulk env m (sf_struct f) = Some (st, ss) /\
+      map (elem_field f) (slice_elems ss) = map Some (p_vals p) /\
+      p_vals p <> [] /\ p_bulk p = true /\ p_argtype p = st /\
+      (p_omit p = true <-> sf_omit f = true /\ forall x, In x (p_vals p) -> is_zero x = true) /\
+      (sf_omit f = true -> p_omit p = false -> forall x, In x (p_vals p) -> is_zero x = false).
+Proof. exact locate_field_bulk_ok. Qed.
+Print Assumptions C04_values_ok.
+
+(* the bulk loop itself *)
+Theorem C04_field_bulk :
+  forall f e elems v vs acc,
+    elem_field f e = Some v -> map (elem_field f) elems = map Some vs ->
+    field_bulk f (e :: elems) true false acc =
+      if sf_omit f && negb (forallb (fun x => Bool.eqb (is_zero x) (is_zero v)) vs) then BErr EMixZero
+      else BOk (acc ++ v :: vs, sf_omit f && is_zero v).
+Proof. exact field_bulk_first. Qed.
+Print Assumptions C04_field_bulk.
+
+(* a bound column carries exactly what LocateParams found *)
+Theorem C04_bound_column :
+  forall env m cnt c bc cnt',
+    bind_col env m cnt c = BOk (bc, cnt') ->
+    bound_from env m cnt c bc /\ cnt' = cnt + width bc /\ bc_column bc = tcol_column c /\
+    (width bc = 0 \/ bc_first bc = cnt) /\
+    (bc_bulk bc = true -> 1 <= length (bc_vals bc)) /\
+    (bc_bulk bc = false -> length (bc_vals bc) <= 1).
+Proof. exact bind_col_spec. Qed.
+Print Assumptions C04_bound_column.
+
+Theorem C04_omit_explicit :
+  forall env m cnt input column p,
+    locate_params env input m = BOk p -> p_omit p = true ->
+    bind_col env m cnt (TCIns input column true) = BErr EOmitExplicit.
+Proof. exact bind_col_omit_explicit. Qed.
+Print Assumptions C04_omit_explicit.
+
+Theorem C04_mismatch_bulk :
+  forall env m cnt used c rest numRows acc bc cnt',
+    bind_col env m cnt c = BOk (bc, cnt') -> bc_bulk bc = true ->
+    length (bc_vals bc) <> numRows ->
+    bind_cols env m cnt used (c :: rest) true numRows acc = BErr EMismatchBulk.
+Proof. exact bind_cols_mismatch. Qed.
+Print Assumptions C04_mismatch_bulk.
+
+Example C04_values_applies :
+  exists p,
+    locate_params ex_env (LField (ex_fld s_street))
+      [(3, VSlice false [person 1 2 3 4 false; person 5 6 7 8 false])] = BOk p /\
+    p_vals p = [L 3 false; L 7 false] /\ p_bulk p = true /\
+    locate_params ex_env (LField (ex_fld s_name))
+      [(3, VSlice false [person 1 2 3 4 true; person 5 6 7 8 false])] = BErr EMixZero /\
+    locate_params ex_env (LField (ex_fld s_name)) [(3, VSlice false [])] = BErr ESliceLen0.
+Proof. eexists. split; [vm_compute; reflexivity|]. repeat split; vm_compute; reflexivity. Qed.
+
+(* (d) The whole effect of an INSERT on the query: the column list is the
+   columns of the non-omitted bound columns, and the same non-omitted columns
+   make up every tuple: an omitted column disappears from both. *)
+Theorem C04_columns :
+  forall env m q cols q',
+    add_to_query env m q (TInsert cols) = BOk q' ->
+    exists bcs numRows,
+      bind_cols env m (q_inputCount q) (q_argUsed q) cols false 1 [] =
+        BOk (bcs, q_inputCount q', q_argUsed q', numRows) /\
+      q_sql q' = q_sql q ++
+        write_insert (map bc_column (live bcs))
+                     (map (fun r => map (fun bc => cell bc r) (live bcs)) (seq 0 numRows)) /\
+      q_named q' = q_named q ++
+        flat_map (fun r => flat_map (fun bc => cell_arg bc r) (live bcs)) (seq 0 numRows) /\
+      q_outputs q' = q_outputs q /\ q_outputCount q' = q_outputCount q.
+Proof. exact add_insert_spec. Qed.
+Print Assumptions C04_columns.
+
+(* the arguments an INSERT creates: for every non-omitted column its values
+   (as LocateParams found them, see C04_shape / bound_all), each once, the i-th
+   under the name of placeholder bc_first + i; in row-major order of creation *)
+Theorem C04_arguments :
+  forall env m q cols q',
+    add_to_query env m q (TInsert cols) = BOk q' ->
+    exists bcs numRows new,
+      bind_cols env m (q_inputCount q) (q_argUsed q) cols false 1 [] =
+        BOk (bcs, q_inputCount q', q_argUsed q', numRows) /\
+      q_named q' = q_named q ++ new /\
+      Permutation new (flat_map (fun bc => named_from (bc_first bc) (bc_vals bc)) (live bcs)).
+Proof. exact add_insert_arguments. Qed.
+Print Assumptions C04_arguments.
+
+(* the bulk loop over a slice of maps: the value under the key in every map *)
+Theorem C04_values_map :
+  forall key elems acc vals,
+    mapkey_bulk key elems acc = BOk vals ->
+    exists vs, map (elem_key key) elems = map Some vs /\ vals = acc ++ vs.
+Proof. exact mapkey_bulk_spec. Qed.
+Print Assumptions C04_values_map.
+
+(* the columns of "(*) VALUES ($T.*, $M.key, ...)": for $T.* all db tags of T
+   in byte-lexicographic order, for a member that member *)
+Theorem C04_asterisk_columns :
+  forall sources b cols0 b1 cols,
+    wf_infos (b_infos b) ->
+    asterisk_sources b sources cols0 = BOk (b1, cols) ->
+    b_infos b1 = b_infos b /\
+    map tcol_column cols = map tcol_column cols0 ++ flat_map (source_columns (b_infos b)) sources.
+Proof. exact asterisk_columns. Qed.
+Print Assumptions C04_asterisk_columns.
+
+(* the infos GenerateArgInfo builds are well formed *)
+Theorem C04_infos_wf :
+  forall env samples infos, generate_arg_info env samples [] = BOk infos -> wf_infos infos.
+Proof. intros env samples infos. exact (generate_arg_info_wf env samples [] infos (Forall_nil _)). Qed.
+Print Assumptions C04_infos_wf.
+
+Example C04_columns_applies :
+  exists infos b1 cols,
+    generate_arg_info ex_env [Some 0; Some 4] [] = BOk infos /\
+    asterisk_sources {| b_infos := infos; b_used := []; b_outused := []; b_exprs := [] |}
+      [{| tname := [80%N]; mname := star |}; {| tname := [77%N]; mname := s_k |}] [] = BOk (b1, cols) /\
+    map tcol_column cols = [s_id; s_name; s_street; s_z; s_k].
+Proof. eexists. eexists. eexists. split; [vm_compute; reflexivity|]. split; vm_compute; reflexivity. Qed.
+
+Example C04_omitted_applies :
+  exists q', add_to_query ex_env [(3, VSlice false [person 1 2 3 4 true; person 5 6 7 8 true]); (4, ex_map)]
+               qb_init ex_insert = BOk q' /\
+    render (q_sql q') =
+      [40; 105; 100; 44; 32; 99; 44; 32; 107; 44; 32; 115; 116; 41; 32; 86; 65; 76; 85; 69; 83; 32;
+       40; 64; 115; 113; 108; 97; 105; 114; 95; 48; 44; 32; 49; 44; 32; 64; 115; 113; 108; 97; 105; 114; 95; 50; 44; 32;
+       64; 115; 113; 108; 97; 105; 114; 95; 51; 41; 44; 32;
+       40; 64; 115; 113; 108; 97; 105; 114; 95; 49; 44; 32; 49; 44; 32; 64; 115; 113; 108; 97; 105; 114; 95; 50; 44; 32;
+       64; 115; 113; 108; 97; 105; 114; 95; 52; 41]%N.
+Proof. eexists. split; vm_compute; reflexivity. Qed.
